@@ -116,6 +116,24 @@ func (this *Conn) Nodes() map[uint64]string {
 	return nodes
 }
 
+// Ids of all nodes an address is known for: the members and the nodes whose address
+// was only learned from another node's list.
+func (this *Conn) KnownNodeIds() []uint64 {
+	this.addressesMu.RLock()
+	defer this.addressesMu.RUnlock()
+
+	ids := make([]uint64, 0, len(this.addresses)+len(this.addressHints))
+	for id, _ := range this.addresses {
+		ids = append(ids, id)
+	}
+	for id, _ := range this.addressHints {
+		if _, exists := this.addresses[id]; !exists {
+			ids = append(ids, id)
+		}
+	}
+	return ids
+}
+
 func (this *Conn) NodeIds() []uint64 {
 	this.addressesMu.RLock()
 	defer this.addressesMu.RUnlock()
